@@ -145,6 +145,46 @@ def rule_pb_out(ctx):
     return r
 
 
+def _feasible(tests):
+    """can the tests (expression, outcome) of one path hold together?  Propositional check over the atoms (sub-expressions that
+    are not and/or/not), valid for tests of parameters that the path does not rebind; more than 10 atoms: assumed feasible."""
+    atoms = []
+
+    def collect(e):
+        if isinstance(e, ast.BoolOp):
+            for v in e.values:
+                collect(v)
+        elif isinstance(e, ast.UnaryOp) and isinstance(e.op, ast.Not):
+            collect(e.operand)
+        else:
+            t = norm(e)
+            # `x is not None` and `x is None` are one atom
+            if isinstance(e, ast.Compare) and len(e.ops) == 1 and isinstance(e.ops[0], ast.IsNot):
+                t = norm(ast.Compare(left=e.left, ops=[ast.Is()], comparators=e.comparators))
+            if t not in atoms:
+                atoms.append(t)
+    for e, _ in tests:
+        collect(e)
+    if len(atoms) > 10:
+        return True
+
+    def ev(e, val):
+        if isinstance(e, ast.BoolOp):
+            vs = [ev(v, val) for v in e.values]
+            return all(vs) if isinstance(e.op, ast.And) else any(vs)
+        if isinstance(e, ast.UnaryOp) and isinstance(e.op, ast.Not):
+            return not ev(e.operand, val)
+        if isinstance(e, ast.Compare) and len(e.ops) == 1 and isinstance(e.ops[0], ast.IsNot):
+            return not val[norm(ast.Compare(left=e.left, ops=[ast.Is()], comparators=e.comparators))]
+        return val[norm(e)]
+    import itertools
+    for bits in itertools.product((False, True), repeat=len(atoms)):
+        val = dict(zip(atoms, bits))
+        if all(ev(e, val) == bool(o) for e, o in tests):
+            return True
+    return False
+
+
 def rule_pb_each(ctx):
     r = RuleResult('R-pb-each', 'every component of the output tuple that a pullback wrapper takes hold of (`xbar, ybar = out`, `xbar = out[0]`) and '
                                 'uses receives a contribution: storage of component i is written by the wrapper or by the kernel it hands the '
@@ -158,36 +198,84 @@ def rule_pb_each(ctx):
         sm = eff.sums[fi]
         if sm.dangling and name in HYPER:
             continue
-        comps = {}
-        for st in walk_no_nested(fi.node):
+        from .rules_api import _paths
+
+        def unpack(st):
+            comps = {}
             if isinstance(st, ast.Assign) and len(st.targets) == 1:
                 t, v = st.targets[0], st.value
                 if isinstance(v, ast.Name) and v.id == 'out' and isinstance(t, (ast.Tuple, ast.List)):
-                    for i, e in enumerate(t.elts):
+                    for i_, e in enumerate(t.elts):
                         if isinstance(e, ast.Name):
-                            comps[i] = e.id
+                            comps[i_] = e.id
                 if isinstance(t, ast.Name) and isinstance(v, ast.Subscript) and norm(v.value) == 'out' and isinstance(v.slice, ast.Constant) \
                         and isinstance(v.slice.value, int):
                     comps[v.slice.value] = t.id
-        if not comps:
+            return comps
+        if not any(unpack(st) for st in walk_no_nested(fi.node)):
             # delegation with the whole tuple: whatever the callee writes is recorded under the same keys
             keys = sorted(k for k in sm.writes if k.startswith('out#'))
             if keys:
                 r.ok(construct=_f(fi) + ':delegated', sample='%s hands `out` on; components written: %s' % (fi.qualname, keys))
             continue
-        for i, nm in sorted(comps.items()):
-            loads = [n for n in walk_no_nested(fi.node) if isinstance(n, ast.Name) and n.id == nm and isinstance(n.ctx, ast.Load)]
-            used = [n for n in loads if not any(isinstance(rt, ast.Return) and any(x is n for x in ast.walk(rt)) for rt in walk_no_nested(fi.node))]
-            if not used:
-                r.ok(construct='%s:%s:placeholder' % (_f(fi), nm), sample='%s: `%s` is only a placeholder (operand without adjoint)' % (fi.qualname, nm))
+        # path by path (the operand-kind branches of pb_mul / pb_truediv, the axis branches of pb_sum): a component that a path
+        # takes from `out` and uses must be written on that path
+        reported = set()
+        n_paths = 0
+        for path in _paths(fi.node.body):
+            stmts = [s_ for s_ in path if not isinstance(s_, tuple)]
+            if not stmts or isinstance(stmts[-1], ast.Raise):
                 continue
-            key = 'out#%d' % i
-            if key in sm.writes:
-                r.ok(construct='%s:%s' % (_f(fi), nm), nontrivial=True,
-                     sample='%s: `%s` (component %d) written via %s' % (fi.qualname, nm, i, sorted(sm.writes[key].values(), key=len)[0][:120]))
-            else:
-                r.bad(Finding('R-pb-each', _f(fi), nm, '%s takes `%s` from component %d of `out` and uses it, but nothing is ever written into its storage: '
-                                                       'the adjoint of that operand receives no contribution' % (fi.qualname, nm, i), fi.file, fi.lineno))
+            if not _feasible([(t_[1], t_[2]) for t_ in path if isinstance(t_, tuple) and len(t_) > 2]):
+                continue
+            comps = {}
+            start = None
+            for k_, s_ in enumerate(path):
+                if isinstance(s_, tuple):
+                    continue
+                u = unpack(s_)
+                if u:
+                    comps.update(u)
+                    start = k_ if start is None else start
+            if not comps:
+                continue
+            n_paths += 1
+            after = [s_ for s_ in path[start + 1:] if not isinstance(s_, tuple)]       # tests only steer (isinstance / is None), they are no use of the data
+            inside = {id(x) for s_ in after for x in ast.walk(s_)}
+            # plain copies rename a component (`xbar, ybar = (xbar_, ybar_)`): they are no use, the copy stands for the component
+            alias = {nm: {nm} for nm in comps.values()}
+            copies = set()
+            for s_ in after:
+                if isinstance(s_, ast.Assign) and len(s_.targets) == 1:
+                    pairs = [(s_.targets[0], s_.value)]
+                    if isinstance(s_.targets[0], ast.Tuple) and isinstance(s_.value, ast.Tuple) and len(s_.targets[0].elts) == len(s_.value.elts):
+                        pairs = list(zip(s_.targets[0].elts, s_.value.elts))
+                    if all(isinstance(t_, ast.Name) and isinstance(v_, ast.Name) for t_, v_ in pairs):
+                        hit = False
+                        for t_, v_ in pairs:
+                            for nm, al in alias.items():
+                                if v_.id in al:
+                                    al.add(t_.id)
+                                    hit = True
+                        if hit:
+                            copies.add(id(s_))
+            for i_, nm in sorted(comps.items()):
+                used = [n for s_ in after if not isinstance(s_, ast.Return) and id(s_) not in copies for n in ast.walk(s_)
+                        if isinstance(n, ast.Name) and n.id in alias[nm] and isinstance(n.ctx, ast.Load)]
+                if not used:
+                    r.ok(construct='%s:%s:placeholder' % (_f(fi), nm))
+                    continue
+                key = 'out#%d' % i_
+                evs = [ev for ev in sm.events if ('p', key) in ev.roots and id(ev.node) in inside]
+                if evs:
+                    r.ok(construct='%s:%s' % (_f(fi), nm), nontrivial=True,
+                         sample='%s: `%s` (component %d) written by `%s`' % (fi.qualname, nm, i_, norm(evs[0].node)[:80]))
+                elif (nm, i_) not in reported:
+                    reported.add((nm, i_))
+                    conds = [('' if t_[2] else 'not ') + norm(t_[1])[:40] for t_ in path if isinstance(t_, tuple) and len(t_) > 2]
+                    r.bad(Finding('R-pb-each', _f(fi), nm, '%s takes `%s` from component %d of `out` and uses it, but on the path [%s] nothing is written into its '
+                                                           'storage: the adjoint of that operand receives no contribution'
+                                  % (fi.qualname, nm, i_, ', '.join(conds)[:160]), fi.file, fi.lineno))
     r.floor = 40
     return r
 
@@ -690,6 +778,73 @@ def rule_pb_dead(ctx):
                                 tainted |= {n.id for n in ast.walk(k.value) if isinstance(n, ast.Name)}
         found = []
         scan(fi, fi.node.body, tainted, found)
+        # path-aware clause for definitions at the top level of the function: on some path the value is redefined before it is
+        # read, or the function ends without ever reading it (e.g. the statement that added it to `out` is missing)
+
+        def fate(stmts, name):
+            """outcomes over the paths through stmts of the first access to `name`: subset of {'read', 'kill', 'none'}"""
+            cur = {'none'}
+            for st in stmts:
+                if 'none' not in cur:
+                    break
+                o = fate_stmt(st, name)
+                cur = (cur - {'none'}) | o
+            return cur
+
+        def fate_stmt(st, name):
+            if isinstance(st, ast.If):
+                if reads(st.test, name):
+                    return {'read'}
+                return fate(st.body, name) | fate(st.orelse, name)
+            if isinstance(st, (ast.For, ast.While, ast.Try, ast.With)):
+                return {'read'} if reads(st, name) or any(full_def(x) and full_def(x)[0] == name for x in ast.walk(st) if isinstance(x, ast.stmt)) else {'none'}
+            if isinstance(st, ast.Return):
+                return {'read'} if reads(st, name) else {'end'}
+            if isinstance(st, ast.Raise):
+                return {'read'}
+            td = full_def(st)
+            if td and td[0] == name:
+                val = td[1]
+                inputs = [a for a in ast.walk(val)] if not isinstance(st, ast.Expr) else \
+                    [n for a in list(val.args) + [k.value for k in val.keywords if k.arg != 'out'] for n in ast.walk(a)]
+                return {'read'} if any(isinstance(n, ast.Name) and n.id == name for n in inputs) else {'kill'}
+            if reads(st, name) or (isinstance(st, ast.AugAssign) and isinstance(st.target, ast.Name) and st.target.id == name):
+                return {'read'}
+            # a store into part of the array neither reads nor replaces the value
+            return {'none'}
+        body = fi.node.body
+        outs_ = {n.id for st in walk_no_nested(fi.node) if isinstance(st, ast.Assign) and any(isinstance(x, ast.Name) and x.id == 'out' for x in ast.walk(st.value))
+                 for t in st.targets for n in ast.walk(t) if isinstance(n, ast.Name)} | {'out'}
+        # names that are views of other arrays: a store through them lands in the base, which is what is read later
+        views_ = set()
+        for st_ in walk_no_nested(fi.node):
+            if isinstance(st_, ast.Assign) and len(st_.targets) == 1:
+                pairs_ = [(st_.targets[0], st_.value)]
+                if isinstance(st_.targets[0], ast.Tuple) and isinstance(st_.value, ast.Tuple) and len(st_.targets[0].elts) == len(st_.value.elts):
+                    pairs_ = list(zip(st_.targets[0].elts, st_.value.elts))
+                for t_, v_ in pairs_:
+                    if isinstance(t_, ast.Name) and (isinstance(v_, (ast.Subscript, ast.Attribute)) or (
+                            isinstance(v_, ast.Call) and isinstance(v_.func, ast.Attribute)
+                            and v_.func.attr in ('transpose', 'reshape', 'view', 'swapaxes', 'ravel', '_transpose', '__getitem__'))):
+                        views_.add(t_.id)
+        def visit(blk, cont):
+            for i, st in enumerate(blk):
+                if isinstance(st, ast.If):
+                    visit(st.body, blk[i + 1:] + cont)
+                    visit(st.orelse, blk[i + 1:] + cont)
+                    continue
+                td = full_def(st)
+                if not td or _trivial_value(td[1]) or td[0] in outs_ or td[0] in fi.params or td[0] in views_:
+                    continue
+                if not ({n.id for n in ast.walk(td[1]) if isinstance(n, ast.Name)} & tainted):
+                    continue
+                if isinstance(st, ast.Expr) and any(isinstance(n, ast.Name) and n.id == td[0] for a_ in st.value.args for n in ast.walk(a_)):
+                    continue        # numpy.add(t, e, out=t): an update of storage that exists, not a new value
+                o = fate(blk[i + 1:] + cont, td[0])
+                if ('kill' in o or 'none' in o or 'end' in o) and not any(f_[0] is st for f_ in found):
+                    why = 'is redefined before it is read on some path' if 'kill' in o else 'is never read on some path to the end of the function'
+                    found.append((st, None, td[0], why))
+        visit(body, [])
         # an incoming adjoint that is re-bound before it has ever been read is discarded as well
         first_use = {}
         for n_ in sorted((x for x in walk_no_nested(fi.node) if isinstance(x, ast.Name)), key=lambda x: (x.lineno, x.col_offset)):
@@ -700,7 +855,44 @@ def rule_pb_dead(ctx):
                 st_ = next((s_ for s_ in walk_no_nested(fi.node) if isinstance(s_, ast.Assign) and any(t_ is n_ for t_ in s_.targets)), None)
                 if st_ is not None and not reads(st_.value, pn):
                     found.append((fi.node.args, st_, pn))
-        for dst, st, name in found:
+        # a local array that receives adjoint-derived data but is never used: whatever was computed into it is thrown away
+        # (the statement that folds it into `out` is missing).  Uses = loads other than as the base of a store target,
+        # as an `out=` destination or as the target of an in-place update of itself.
+        alloc = {}
+        for st_ in walk_no_nested(fi.node):
+            if isinstance(st_, ast.Assign) and len(st_.targets) == 1 and isinstance(st_.targets[0], ast.Name) and isinstance(st_.value, ast.Call) \
+                    and (dotted_name(st_.value.func) or norm(st_.value.func)).split('.')[-1] in ('zeros', 'zeros_like', 'empty', 'empty_like', 'ones', '__zeros__', '__zeros_like__'):
+                alloc.setdefault(st_.targets[0].id, []).append(st_)
+        write_pos = set()
+        for n_ in walk_no_nested(fi.node):
+            if isinstance(n_, (ast.Assign, ast.AugAssign)):
+                for t_ in (n_.targets if isinstance(n_, ast.Assign) else [n_.target]):
+                    b_ = t_
+                    while isinstance(b_, (ast.Subscript, ast.Attribute)):
+                        b_ = b_.value
+                    if isinstance(b_, ast.Name):
+                        write_pos.add(id(b_))
+            if isinstance(n_, ast.Call):
+                for k_ in n_.keywords:
+                    if k_.arg == 'out':
+                        for x_ in ast.walk(k_.value):
+                            if isinstance(x_, ast.Name):
+                                write_pos.add(id(x_))
+        fallback = {id(x) for n_ in walk_no_nested(fi.node) if isinstance(n_, ast.If) and norm(n_.test) in ('out is None', 'out == None')
+                    for b_ in n_.body for x in ast.walk(b_)}
+        for nm, sts in alloc.items():
+            if len(sts) != 1 or nm not in tainted or nm in outs_ or nm in views_ or nm in fi.params or id(sts[0]) in fallback:
+                continue
+            uses = [n_ for n_ in walk_no_nested(fi.node) if isinstance(n_, ast.Name) and n_.id == nm and isinstance(n_.ctx, ast.Load) and id(n_) not in write_pos]
+            if not uses and not any(f_[2] == nm for f_ in found):
+                found.append((sts[0], None, nm, 'receives adjoint-derived data but is never used afterwards'))
+        for item in found:
+            if len(item) == 4:
+                dst, _, name, why = item
+                r.bad(Finding('R-pb-dead', _f(fi), '%s:path:%s' % (name, norm(dst)[:50]),
+                              '%s: `%s` (computed from an adjoint) %s: the contribution is lost' % (fi.qualname, norm(dst)[:70], why), fi.file, dst.lineno))
+                continue
+            dst, st, name = item
             what = ('the incoming adjoint `%s`' % name) if isinstance(dst, ast.arguments) else ('`%s` (computed from an adjoint)' % norm(dst)[:70])
             r.bad(Finding('R-pb-dead', _f(fi), '%s:%s' % (name, 'param' if isinstance(dst, ast.arguments) else norm(dst)[:50]),
                           '%s: %s is overwritten by `%s` before it is read: the contribution is lost'
